@@ -118,9 +118,6 @@ Proof.
   destruct (e =? d); cbn [orb]; [destruct (mem_N e D); reflexivity|reflexivity].
 Qed.
 
-Definition abs_upd {A} (upd : A -> list N -> list N) (st : structure) (r : N * A) : structure :=
-  al_insert (fst r) (upd (snd r) (kinds_of st (fst r))) st.
-
 Lemma kinds_of_upd {A} (upd : A -> list N -> list N) st r e :
   kinds_of (abs_upd upd st r) e = if e =? fst r then upd (snd r) (kinds_of st (fst r)) else kinds_of st e.
 Proof. unfold kinds_of at 1, abs_upd. rewrite al_get_insert. destruct (e =? fst r); reflexivity. Qed.
@@ -251,23 +248,18 @@ Lemma nv_mt1 e :
   mutation_tick (sfc_ticks1 s cl) e = if mem_N e (sv_despawn_buf s) then None else mutation_tick (sc_ticks cl) e.
 Proof. rewrite nv_ticks1. apply remove_fold_tick. Qed.
 
-(* the per-entity result *)
-Definition nv_ec (exm : N * sent * N) : ent_changes :=
-  cep (sv_last_run s) (sv_tick s) (sv_removal_buf s) (mutation_tick (sfc_ticks1 s cl) (ent_id exm))
-      VVisible (ent_id exm) (snd (fst exm)) (snd exm).
-
 Lemma nv_ecs : ents_wf s ->
-  sfc_ecs s run cl = map (fun exm => (ent_id exm, nv_ec exm)) (replicated_ents s).
+  sfc_ecs s run cl = map (fun exm => (ent_id exm, nv_ec s cl exm)) (replicated_ents s).
 Proof. intros Hwf. rewrite (sfc_ecs_nodup s run cl Hwf). rewrite nv_vis1. reflexivity. Qed.
 
 Lemma nv_changed_in e en : ents_wf s ->
   (In (e, en) (changed_set s run cl) <->
-   exists x madd, In (e, x, madd) (replicated_ents s) /\ ec_entry (nv_ec (e, x, madd)) = Some en).
+   exists x madd, In (e, x, madd) (replicated_ents s) /\ ec_entry (nv_ec s cl (e, x, madd)) = Some en).
 Proof.
   intros Hwf. rewrite changed_set_eq, In_entries_of, (nv_ecs Hwf). split.
   - intros [ec [Hin Hen]]. apply in_map_iff in Hin. destruct Hin as [[[e' x] madd] [Heq Hin]].
     cbn [ent_id fst] in Heq. injection Heq as -> <-. exists x, madd. split; assumption.
-  - intros [x [madd [Hin Hen]]]. exists (nv_ec (e, x, madd)). split; [|exact Hen].
+  - intros [x [madd [Hin Hen]]]. exists (nv_ec s cl (e, x, madd)). split; [|exact Hen].
     apply in_map_iff. exists (e, x, madd). split; [reflexivity|exact Hin].
 Qed.
 
@@ -585,4 +577,34 @@ Proof.
   destruct (mut_ticks_fields run (sv_elapsed s) (sfc_parts c s run cl p) (sfc_ticks3 s run cl)) as [M1 _].
   destruct (sfc_ticks3_fields s run cl) as [M2 _].
   unfold mutation_tick. rewrite M1, M2. reflexivity.
+Qed.
+
+(* ---------- the boolean test used by the examples is sound ---------- *)
+
+Lemma kinds_eqb_sound a b : kinds_eqb a b = true -> kinds_equiv a b.
+Proof.
+  unfold kinds_eqb. intros H. apply andb_prop in H. destruct H as [H1 H2].
+  rewrite forallb_forall in H1, H2. apply kinds_equiv_iff. intros k. split.
+  - intros Hk. apply mem_N_In. apply H1. apply mem_N_In. exact Hk.
+  - intros Hk. apply H2. exact Hk.
+Qed.
+
+Lemma struct_eqb_sound a b : struct_eqb a b = true -> struct_equiv a b.
+Proof.
+  unfold struct_eqb. intros H. apply andb_prop in H. destruct H as [H1 H2].
+  rewrite forallb_forall in H1, H2. intros e.
+  destruct (al_get e a) as [ka|] eqn:Ea.
+  - specialize (H1 (e, ka) (al_get_In _ _ _ Ea)). cbn [fst] in H1.
+    destruct (al_get e b) as [kb|]; [|discriminate]. unfold kinds_of in H1. rewrite Ea in H1.
+    apply kinds_eqb_sound. exact H1.
+  - destruct (al_get e b) as [kb|] eqn:Eb; [|exact I].
+    specialize (H2 (e, kb) (al_get_In _ _ _ Eb)). cbn [fst] in H2. rewrite Ea in H2. discriminate.
+Qed.
+
+Lemma all_synced_sound g : all_synced g = true ->
+  forall cl, In cl (sv_clients (g_srv g)) -> sc_authorized cl = true ->
+    struct_equiv (sent_of (sc_slot cl) (g_sent g)) (struct_of (g_srv g)).
+Proof.
+  unfold all_synced. intros H cl Hin Ha. rewrite forallb_forall in H. specialize (H cl Hin).
+  rewrite Ha in H. cbn [negb orb] in H. apply struct_eqb_sound. exact H.
 Qed.
